@@ -462,6 +462,7 @@ def toy_tie(S):
     nontriv = 0
     tie_bad = []
     prop_bad = []
+    slow_model = []
     dist = dict(I=0, O=0, M=0, eof=0, err=0, more=0, status_ok=0, status_trunc=0, status_bad=0,
                 crossed_bufsz=0, multi_member=0)
     samples = []
@@ -498,6 +499,14 @@ def toy_tie(S):
                 samples.append(dict(case=l[:160], impl=rc[i][:160], model=rm[i][:160]))
             if rc[i] == "SKIPPED" or rm[i] == "SKIPPED":
                 continue
+            if rm[i] == "HANG" and rc[i] != "HANG":
+                # the extracted model is structurally recursive (it cannot loop); no output for 200 s means that the
+                # list-based model is too slow on this case, not that it disagrees: judge the implementation only
+                slow_model.append(l[:120])
+                j = toy_property_judgement(l, info, rc[i]) if kind in "IO" and info else None
+                if j:
+                    prop_bad.append((l, j, rc[i], rm[i]))
+                continue
             j = toy_property_judgement(l, info, rc[i]) if kind in "IO" and info else None
             if j:
                 prop_bad.append((l, j, rc[i], rm[i]))
@@ -524,9 +533,12 @@ def toy_tie(S):
                 prop_bad.append((l, ("wrong-bytes:ostream:" + drv,
                                      "bytes written by ostream_xfrm decode to %d bytes (%s), %d were appended"
                                      % (len(plain), status, len(infos[l]["plain"]))), r2[k], ""))
+    if slow_model:
+        ctx.notes.append("toy tie: the extracted model produced no answer within 200 s on %d case(s) (implementation judged by the "
+                         "property oracle only): %s" % (len(slow_model), "; ".join(slow_model[:3])))
     ctx.coverage["evaluations"] += n_eval
     ctx.coverage["distinct_nontrivial"] += nontriv
-    ctx.coverage["traces_validated_against_impl"] += n_eval - len(tie_bad)
+    ctx.coverage["traces_validated_against_impl"] += n_eval - len(tie_bad) - len(slow_model)
     ctx.coverage.setdefault("distribution", {})["toy"] = dist
     ctx.add_samples(samples)
     return tie_bad, prop_bad
@@ -941,12 +953,17 @@ def run(ctx):
             continue
         seen.add(sig)
         ctx.violation(sig, why, rep)
-    if tie_bad and not (prop_bad or real_bad or tool_bad):
-        l, rc, rm = tie_bad[0]
+    # a tie mismatch is reported unless the same case already is a concrete property failure (core.finish drops the
+    # no-input report when a concrete, not yet known violation exists; failures matching a recorded finding must not
+    # hide a broken correspondence)
+    bad_lines = set(l for l, _, _, _ in prop_bad)
+    tie_only = [t for t in tie_bad if t[0] not in bad_lines]
+    if tie_only:
+        l, rc, rm = tie_only[0]
         ctx.violation("tie-toy:" + l.split(" ")[0] + ":" + (l.split(" ")[1] if l[0] in "IO" else "magic"),
                       "correspondence model vs. working tree broken (%d of the cases): impl=%s model=%s; the property oracle "
                       "(toy reference decoder, real-codec component oracle, tool oracle) found no failing input"
-                      % (len(tie_bad), rc[:120], rm[:120]),
+                      % (len(tie_only), rc[:120], rm[:120]),
                       dict(kind="toy", line=l if len(l) < 200000 else l[:200000], impl=rc[:300], model=rm[:300],
                            correspondence="props/C15: extracted XfrmModel+ToyCodec = istream.c/ostream.c/{gzip,xz,bzip2,zstd}.c on toy.h (exact trace)"),
                       no_input=True)
